@@ -1,31 +1,35 @@
-"""run the quick check of the target property (and a few related ones) against every seeded change; writes seeded/matrix.json
-usage: .venv/bin/python tools/seedmatrix.py [Cxx ...]"""
+"""run the quick check of the target property (and a few related ones) against every seeded change; writes <dir>/matrix.json
+usage: [SEED_TREE=/tmp/clean] [SEED_DIR=seeded2] .venv/bin/python tools/seedmatrix.py [Cxx ...]
+SEED_TREE: the git tree the change is applied to and the checks run against (default /repo; a scratch worktree keeps /repo clean)"""
 import json, os, subprocess, sys, time
 HERE = os.path.dirname(os.path.dirname(os.path.abspath(__file__)))
 ALSO = {"C01": ["C18", "C08"], "C05": ["C13"], "C08": ["C18"], "C14": ["C16"], "C13": ["C03"], "C03": ["C13"], "C12": ["C11"], "C11": ["C12"]}
-ids = sys.argv[1:] or sorted(d for d in os.listdir(os.path.join(HERE, "seeded")) if d.startswith("C"))
-out_path = os.path.join(HERE, "seeded", "matrix.json")
+TREE = os.environ.get("SEED_TREE", "/repo")
+SDIR = os.environ.get("SEED_DIR", "seeded")
+ids = sys.argv[1:] or sorted(d for d in os.listdir(os.path.join(HERE, SDIR)) if d.startswith("C"))
+out_path = os.path.join(HERE, SDIR, "matrix.json")
 matrix = json.load(open(out_path)) if os.path.exists(out_path) else {}
 for pid in ids:
     for k in ("1", "2"):
-        patch = os.path.join(HERE, "seeded", pid, "change%s.diff" % k)
+        patch = os.path.join(HERE, SDIR, pid, "change%s.diff" % k)
         if not os.path.exists(patch):
             continue
         key = "%s/change%s" % (pid, k)
         res = {}
         for chk in [pid] + ALSO.get(pid, []):
-            assert subprocess.run(["git", "-C", "/repo", "diff", "--quiet"]).returncode == 0, "repo dirty"
-            a = subprocess.run(["git", "-C", "/repo", "apply", patch])
+            assert subprocess.run(["git", "-C", TREE, "diff", "--quiet"]).returncode == 0, "tree dirty"
+            a = subprocess.run(["git", "-C", TREE, "apply", patch])
             if a.returncode != 0:
                 res[chk] = "patch does not apply to the fixed tree"
                 continue
             t = time.time()
             try:
-                r = subprocess.run([os.path.join(HERE, "run"), chk, "quick"], capture_output=True, text=True, timeout=1500)
+                r = subprocess.run([os.path.join(HERE, "run"), chk, "quick"], capture_output=True, text=True, timeout=1500,
+                                   env=dict(os.environ, MAKO_TREE=TREE))
                 viol = [l for l in r.stdout.splitlines() if l.startswith("VIOLATION")]
                 res[chk] = dict(exit=r.returncode, violations=len(viol), first=(viol[0] if viol else None), seconds=round(time.time() - t, 1))
             finally:
-                subprocess.run(["git", "-C", "/repo", "checkout", "--", "."])
+                subprocess.run(["git", "-C", TREE, "checkout", "--", "."])
             print(key, chk, res[chk], flush=True)
             if isinstance(res[chk], dict) and res[chk]["exit"] == 1:
                 break
